@@ -65,7 +65,9 @@ func c09Gen(seed uint64, run int, tier string) *Case {
 		var ops []Op
 		for k := r.Range(2, 8); k > 0; k-- {
 			off := int64(len(ops)*4096 + r.Intn(100))
-			switch r.Intn(10) {
+			switch r.Intn(12) {
+			case 10, 11:
+				ops = append(ops, Op{K: "helper", A: []int64{int64(r.Intn(6))}})
 			case 0, 1, 2, 3:
 				ops = append(ops, Op{K: "read", A: []int64{off, int64(r.Pick(0, 1, 40, ms/2, ms))}})
 			case 4:
@@ -79,7 +81,7 @@ func c09Gen(seed uint64, run int, tier string) *Case {
 			case 8:
 				ops = append(ops, Op{K: "readwrong", A: []int64{off | int64(markWrong), 10}})
 			case 9:
-				ops = append(ops, Op{K: "tagreads", A: []int64{int64(len(ops)), int64(r.Range(2, 6)), int64(r.Pick(1, 8, 30))}})
+				ops = append(ops, Op{K: "tagreads", A: []int64{int64(len(ops)), int64(r.Range(2, 6)), int64(r.Pick(1, 8, 30)), int64(r.Intn(3))}})
 			}
 		}
 		c.Ops = append(c.Ops, Op{K: "caller", Sub: ops})
@@ -99,7 +101,7 @@ func c09Exec(x *Ctx) {
 	cc.Out.Cap = int(c.cfg("cap"))
 	cc.In.Seg, cs.In.Seg = int(c.cfg("seg")), int(c.cfg("seg"))
 	peer := NewSrvPeer(x, cs, uint32(c.cfg("smsize")), c.cfg("sdotu") != 0)
-	st := &c10State{x: x, keyOcc: map[string]int{}}
+	st := &c10State{x: x, keyOcc: map[string]int{}, tagOrder: true}
 	holdpct := int(c.cfg("holdpct"))
 	distinctTags := map[uint16]bool{}
 	sharedIssue := map[uint16][]uint64{} // per shared tag: offsets in arrival order
